@@ -54,6 +54,41 @@ def top_of_range(rng, reps):
                 pkt[0:12] = bytes([0, 0, 0x84, 0, 0, 0, 0, 2, 0, 0, 0, 0])
                 rec_header(pkt, 12, 99, gap)
                 ops.append("DEC " + bytes(pkt).hex())
+    # fixed-width integer reads that begin within 4 bytes of offset 65536 (offset + sizeof(T) no longer fits 16 bits):
+    #  - decoder entry points called with a start offset of 65532..65535 on short and on full-size buffers,
+    #  - a short datagram whose first record has an unsupported type and an RDLENGTH that moves the offset to
+    #    65535 - k (k = 0..3), with a second record announced,
+    #  - full-size datagrams whose last 1/2/4-byte field (label length, type, class, TTL, RDLENGTH) straddles the end
+    for _ in range(reps):
+        short = bytes(rng.choice([0x00, 0x40, 0xc0, 0x01]) for _ in range(rng.choice([1, 2, 12, 23, 40])))
+        for off in (65532, 65533, 65534, 65535):
+            ops.append("PNAME %s %d" % (short.hex(), off))
+            ops.append("PREC %s %d" % (short.hex(), off))
+        for k in (0, 1, 2, 3):
+            pkt = bytearray(23 + rng.choice([0, 0, 5]))
+            pkt[0:12] = bytes([0, 0, 0x84, 0, 0, 0, 0, 2, 0, 0, 0, 0])
+            rec_header(pkt, 12, rng.choice([99, 2, 6, 65535]), 65535 - k - 23)
+            for i in range(23, len(pkt)):
+                pkt[i] = rng.choice([0x00, 0x40])
+            ops.append("DEC " + bytes(pkt).hex())
+        for field_off, width in ((0, 1), (1, 2), (3, 2), (5, 4), (9, 2)):
+            for cut in range(1, width + 1):
+                # the field starts `cut - 1` bytes... the packet ends `width - cut + 0` bytes short of the field's end
+                L = rng.choice([65535, 65535, 65534, 65533])
+                start = L - (cut - 1) if width > 1 else L        # first byte of the field; the field needs start + width > L
+                if start + width <= L or start >= 65536:
+                    continue
+                h = start - field_off                               # where the record header (root owner name) begins
+                buf = bytearray([rng.choice([0x00, 0x41])]) * L
+                hdr = bytearray(11)
+                rec_header(hdr, 0, rng.choice([1, 28, 33, 99]), 4)
+                buf[h:min(L, h + 11)] = hdr[:max(0, min(11, L - h))]
+                ops.append("PREC %s %d" % (bytes(buf).hex(), h))
+                gap = h - 12 - 11
+                pkt = bytearray(buf)
+                pkt[0:12] = bytes([0, 0, 0x84, 0, 0, 0, 0, 2, 0, 0, 0, 0])
+                rec_header(pkt, 12, 99, gap)
+                ops.append("DEC " + bytes(pkt).hex())
     return ops
 
 
@@ -94,7 +129,9 @@ def explore(ctx, replay=None, search_boost=False):
             ops.append("DEC " + d.hex())
             ops.append("PNAME %s %d" % (d.hex(), rng.randrange(n)))
         # (iv) the top of the 16-bit offset range: a length-prefixed item (name label, AAAA address, NSEC bitmap, TXT string)
-        #      that starts so close to 65536 that offset + length wraps in 16 bits, in a packet that ends before the item does
+        #      that starts so close to 65536 that offset + length wraps in 16 bits, in a packet that ends before the item does;
+        #      and fixed-width integer reads beginning within 4 bytes of 65536 (start offsets 65532..65535, RDLENGTH skips
+        #      landing there, fields straddling the end of full-size datagrams)
         ops += top_of_range(rng, 2 if quick else 12)
     scripts = [Script("s%d" % i, "codec", ops[i:i + 60]) for i in range(0, len(ops), 60)]
     model, impl, faults = cc.run_both(ctx, scripts)
